@@ -6,6 +6,22 @@ Import ListNotations.
 Open Scope string_scope.
 Open Scope list_scope.
 
+Lemma cprefix_app_r x y z : cprefix x y = true -> cprefix x (capp y z) = true.
+Proof.
+  unfold cprefix, capp. revert y. induction x as [|a x IH]; intros y H; simpl in *.
+  - destruct (y ++ z)%string; reflexivity.
+  - destruct y as [|b y]; [discriminate H|]. simpl in *.
+    destruct (Ascii.ascii_dec a b) as [e|ne]; [apply IH; exact H | discriminate H].
+Qed.
+
+(* any number of appends (the views lines may be appended once per `tally init`) *)
+Ltac solve_or2 :=
+  first [ solve [repeat (first [apply cprefix_refl | apply cprefix_app_r])]
+        | apply orb_true_iff; first [left; solve_or2 | right; solve_or2] ].
+Ltac solve_no_loss2 :=
+  cbv [no_loss forallb is_marker rev app fst snd kept existsb]; cbn [orb];
+  repeat (apply andb_true_intro; split); try reflexivity; solve_or2.
+
 Section Csv.
 Variable O : oracle.
 
@@ -18,8 +34,8 @@ Lemma csv_no_loss_init_fault :
 Proof.
   intros s c0 d0 k n f0 f1 f2 E0 E1 E2. unfold content_kept.
   destruct s as [s0|]; subst f0.
-  - revert E1; split_k k; norminx2 E1; subst f1; norminx2 E2; subst f2; split; solve_no_loss.
-  - revert E1; split_k k; norminx2 E1; subst f1; norminx2 E2; subst f2; split; solve_no_loss.
+  - revert E1; split_k k; norminx2 E1; subst f1; norminx2 E2; subst f2; split; solve_no_loss2.
+  - revert E1; split_k k; norminx2 E1; subst f1; norminx2 E2; subst f2; split; solve_no_loss2.
 Qed.
 
 End Csv.
